@@ -15,7 +15,7 @@ def run(ctx):
         ctx.violation("fixupL-spec", "real fixupL/countnz output is not the specified compaction / counts", d)
     for d in [x for x in dis if x["kind"] != "fixupL-property"][:5]:
         ctx.violation("fixupL-correspondence", "correspondence fixupL/countnz <-> Model/Fixup.lean (theorem Slu.fixupL_spec) no longer checks", d, no_input=True)
-    n_cases, nmax = (600, 48) if ctx.quick() else (12000, 160)
+    n_cases, nmax = (600, 48) if ctx.quick() else (5000, 110)
     recs = S.sweep(ctx, n_cases, nmax, precs="dszc", drivers=("gssv", "gssvx"))
     bad = S.judge(ctx, recs, ["wfL", "wfU", "permr", "permc"], "well-formedness")
     S.coverage(ctx, recs)
